@@ -21,6 +21,7 @@ MCNext == /\ n < MaxSteps /\ n' = n + 1
                    \/ \E nm \in Names : Use(nm) /\ H(St("use", nm, 0))
                    \/ Show /\ H(St("show", "", 0))
                    \/ CreateTable /\ H(St("createtable", "", 0))
+                   \/ OtherTable /\ H(St("other", "", n'))          \* the harness names the table after the step
                    \/ Restart /\ H(St("restart", "", 0))
                    \/ CrashRestart /\ H(St("crash", "", 0))
                    \/ \E v \in Vals : Small /\ Insert(v) /\ H(St("insert", "", v))
